@@ -383,7 +383,11 @@ func report(groups []*group, res *lib.Result) {
 		case g.kind == gProbe:
 			zc = "zone:dayskip-probe"
 		}
+		thm := "theorem:" + theoremClass(g.table)
 		for _, it := range g.items {
+			if it.kind == "next" && it.skipped == "" {
+				res.Hit(thm)
+			}
 			c := it.caseJSON(g.zone)
 			if it.skipped != "" {
 				res.Hit("skipped:" + it.skipped)
